@@ -857,6 +857,13 @@ fn cfa_program(g: G, x: &mut Enc) {
 }
 
 pub fn seed_debug_frame(g: G, version: u8) -> SecSet {
+    seed_debug_frame_aug(g, version, false)
+}
+
+/// `zr`: the CIE carries a "zR" augmentation with DW_EH_PE_udata4 (unusual in .debug_frame, but
+/// parsed the same way as in .eh_frame): FDE addresses then use a fixed-size encoding and do
+/// not go through `read_address`, which would otherwise validate the CIE's address size.
+pub fn seed_debug_frame_aug(g: G, version: u8, zr: bool) -> SecSet {
     let mut s = SecSet::default();
     let mut out = e(g);
     let mut cie = e(g);
@@ -865,7 +872,11 @@ pub fn seed_debug_frame(g: G, version: u8) -> SecSet {
     } else {
         cie.u32(u32::MAX);
     }
-    cie.u8(version).u8(0);
+    cie.u8(version);
+    if zr {
+        cie.bytes(b"zR");
+    }
+    cie.u8(0);
     if version >= 4 {
         cie.u8(g.asz).u8(0);
     }
@@ -875,6 +886,9 @@ pub fn seed_debug_frame(g: G, version: u8) -> SecSet {
     } else {
         cie.uleb(16);
     }
+    if zr {
+        cie.uleb(1).u8(0x03);
+    }
     cie.u8(0x0c).uleb(7).uleb(8).u8(0x80 | 16).uleb(1);
     while (cie.buf.len() + if g.f64_ { 12 } else { 4 }) % g.asz.max(4) as usize != 0 {
         cie.buf.push(0);
@@ -882,7 +896,11 @@ pub fn seed_debug_frame(g: G, version: u8) -> SecSet {
     out.with_length(g.f64_, &cie);
     for k in 0..2u64 {
         let mut fde = e(g);
-        fde.offset(0, g.f64_).addr(0x1000 + k * 0x100, g.asz).addr(0x40, g.asz);
+        if zr {
+            fde.offset(0, g.f64_).u32(0x1000 + k as u32 * 0x100).u32(0x40).uleb(0);
+        } else {
+            fde.offset(0, g.f64_).addr(0x1000 + k * 0x100, g.asz).addr(0x40, g.asz);
+        }
         cfa_program(g, &mut fde);
         while (fde.buf.len() + if g.f64_ { 12 } else { 4 }) % g.asz.max(4) as usize != 0 {
             fde.buf.push(0);
@@ -1012,6 +1030,7 @@ pub fn seeds() -> Vec<SeedDef> {
         SeedDef { name: "cu_index-v2-full-table", primary: 17, gen: |g| seed_index_full(g, true) },
         SeedDef { name: "debug_frame-v1", primary: 19, gen: |g| seed_debug_frame(g, 1) },
         SeedDef { name: "debug_frame-v4", primary: 19, gen: |g| seed_debug_frame(g, 4) },
+        SeedDef { name: "debug_frame-v4-zR", primary: 19, gen: |g| seed_debug_frame_aug(g, 4, true) },
         SeedDef { name: "eh_frame-plain", primary: 20, gen: |g| seed_eh_frame(g, 0) },
         SeedDef { name: "eh_frame-zR", primary: 20, gen: |g| seed_eh_frame(g, 1) },
         SeedDef { name: "eh_frame-zPLRS", primary: 20, gen: |g| seed_eh_frame(g, 2) },
